@@ -304,11 +304,14 @@ func symEquals(fr *frame, t types.Type, x, y value) value {
 		if x.t == nil || yi.t == nil {
 			return x.t == nil && yi.t == nil
 		}
+		if _, ok := x.v.(native); ok {
+			return nativeEq(x.v, yi.v)
+		}
 		if _, ok := x.t.(*nativeType); ok {
 			if _, ok2 := yi.t.(*nativeType); !ok2 {
 				return false
 			}
-			return nativeEq(x.v, yi.v)
+			return x.v == yi.v
 		}
 		if _, ok := yi.t.(*nativeType); ok {
 			return false
